@@ -324,6 +324,11 @@ func generateHarnesses(repo, prop, dir string) error {
 		b.WriteString("\treturn w.done()\n}\n\n")
 		fmt.Fprintf(&b, "func vpSet_%s(x *%s, field, shape int, tag byte) {\n\tswitch field {\n", s.Name, s.Name)
 		for i, f := range s.Fields {
+			if f.Kind == "Unknown" {
+				// a field of a type the harness library has no constructor for: never populated, compared as equal
+				fmt.Fprintf(&b, "\tcase %d:\n", i)
+				continue
+			}
 			fmt.Fprintf(&b, "\tcase %d:\n\t\tx.%s = vpMk_%s(shape, tag)\n", i, f.Name, f.Kind)
 		}
 		b.WriteString("\t}\n}\n\n")
